@@ -280,56 +280,69 @@ def units():
 #   alpha = a^((q-1)/2), so alpha^(q+1) = a^((q^2-1)/2) = 1;  x0^2 = alpha * a;  u^2 = -1 gives the first case;
 #   ((1+alpha)^((q-1)/2))^2 = (1+alpha)^q / (1+alpha) = (1 + alpha^-1) / (1 + alpha) = alpha^-1 gives the second.
 def gen_fq2_sqrt(tu):
-    from symx import Leaf
+    from symx import Leaf, Obj
     f = tu.func("Fq2::square_root")
     E1, E2 = (Q - 3) // 4, (Q - 1) // 2
+    expq = [q for q in tu.by_qname if q.startswith("exponentiate(") and "Fq2" in q]
+    if not expq:
+        import jast
+        raise jast.ExtractionError("exponentiate instance for Fq2 not found")
+
+    def cmul(x, y):
+        return (x[0] * y[0] - x[1] * y[1], x[0] * y[1] + x[1] * y[0])
 
     def run(path):
-        d = RingDomain({"Fq2", "Fq", "BigInt<384>"}, consts=U.SHARED.get("consts"))
         pows = []
 
-        def expo(I_, dd, f_, args):
-            base, k = dd.val(args[1]), dd.val(args[2])
+        def expo(I_, f_, this, args):
+            dd = I_.dom
+            base = (dd.val(args[1].f["c0"]), dd.val(args[1].f["c1"]))
+            k = dd.val(args[2])
             pows.append((base, k))
-            args[0].val = dd.sym("pow", base, k)
-        d.free_contracts["exponentiate"] = expo
-        orig_init = d.leaf_from_init
-
-        def leaf_init(I_, t, src):
-            # Fq2 constant = {.c0 = Fq::zero, .c1 = Fq::one}: the element u
-            if t == "Fq2" and isinstance(src, (list, tuple)) and len(src) == 2:
-                vals = [x.val if isinstance(x, Leaf) else x for x in src]
-                if vals[0] in (0, Poly()) and vals[1] in (1, Poly.const(1)):
-                    return Poly.var("u")
-            return orig_init(I_, t, src)
-        d.leaf_from_init = leaf_init
+            args[0].f["c0"].val = dd.sym("pow.c0", base[0], base[1], k)
+            args[0].f["c1"].val = dd.sym("pow.c1", base[0], base[1], k)
+        expo.raw = True
+        d = RingDomain({"Fq", "BigInt<384>"}, consts=U.SHARED.get("consts"), obj_contracts={q: expo for q in expq})
         I = Interp(tu, d)
         I.path = path
         I.scopes = ["Fq2"]
         this, a = I.new_object("Fq2"), I.new_object("Fq2")
-        a.val = Poly.var("a")
+        A = (Poly.var("a0"), Poly.var("a1"))
+        a.f["c0"].val, a.f["c1"].val = A
         I.call(f, this, [a], force_body=True)
-        A = Poly.var("a")
-        dec = [(lab, dd) for (lab, dd) in path.trace if isinstance(lab, tuple) and lab[0] == "is_zero"]
-        out = this.val
+        out = (this.f["c0"].val, this.f["c1"].val)
+        dec = {}
+        for (lab, dd_) in path.trace:
+            if isinstance(lab, tuple) and lab[0] == "is_zero":
+                dec[_k(lab[2])] = dd_
         chk = lambda w, ok, m="": (w, "ok" if ok else "fail", "" if ok else m, None)
-        if dec and dec[0][1] is True and len(dec) == 1 and not pows:
-            return [chk("a == 0: the root returned is a itself (0)", isinstance(out, Poly) and out == A, repr(out))]
-        obs = [chk("first power: a^((q-3)/4)", bool(pows) and pows[0][0] == A and pows[0][1] == E1, repr(pows[:1])[:200])]
+
+        def decided(p, val):
+            return dec.get(_k(p)) == val or dec.get(_k(-p)) == val
         if not pows:
-            return obs
-        a1 = d.sym("pow", A, E1)
-        alpha = a1 * a1 * A
-        x0 = a1 * A
-        neg1 = [dd for (lab, dd) in dec[1:]]
+            return [chk("no power computed: only when a == 0 (both components decided zero), and then the root returned is a", decided(A[0], True) and decided(A[1], True) and out == A, repr(out)[:200])]
+        obs = [chk("a != 0 on this path", not (decided(A[0], True) and decided(A[1], True))),
+               chk("first power: a^((q-3)/4)", pows[0][0] == A and pows[0][1] == E1, repr(pows[0])[:200])]
+        a1 = (d.sym("pow.c0", A[0], A[1], E1), d.sym("pow.c1", A[0], A[1], E1))
+        alpha = cmul(cmul(a1, a1), A)
+        x0 = cmul(a1, A)
+        is_m1 = decided(alpha[0] + 1, True) and decided(alpha[1], True)
+        not_m1 = decided(alpha[0] + 1, False) or decided(alpha[1], False)
         if len(pows) == 1:
-            obs.append(chk("alpha == -1 branch: root == u * a1 * a, decided on alpha + 1 == 0 with alpha = a1^2 * a", out == x0 * Poly.var("u") and len(dec) >= 2 and (dec[-1][0][2] == alpha + 1 or dec[-1][0][2] == -(alpha + 1)) and dec[-1][1] is True, repr(out)[:300]))
+            obs.append(chk("u-branch is taken only when alpha == -1 (both components decided: alpha.c0 + 1 == 0 and alpha.c1 == 0), alpha = a1^2 * a", is_m1, repr(sorted(dec.items(), key=repr))[:300]))
+            obs.append(chk("u-branch: root == u * a1 * a", out == (-x0[1], x0[0]), repr(out)[:300]))
         else:
-            b = d.sym("pow", alpha + 1, E2)
-            obs.append(chk("general branch: second power is (1 + alpha)^((q-1)/2) with alpha = a1^2 * a", pows[1][0] == alpha + 1 and pows[1][1] == E2 and len(pows) == 2, repr(pows[1])[:300]))
-            obs.append(chk("general branch: root == (1 + alpha)^((q-1)/2) * a1 * a", out == b * x0, repr(out)[:300]))
+            b1 = (alpha[0] + 1, alpha[1])
+            obs.append(chk("general branch is taken only when alpha != -1 (one of the two component equalities decided false)", not_m1 and not is_m1))
+            obs.append(chk("general branch: second power is (1 + alpha)^((q-1)/2)", len(pows) == 2 and pows[1][0] == b1 and pows[1][1] == E2, repr(pows[1])[:300]))
+            bb = (d.sym("pow.c0", b1[0], b1[1], E2), d.sym("pow.c1", b1[0], b1[1], E2))
+            obs.append(chk("general branch: root == (1 + alpha)^((q-1)/2) * a1 * a", out == cmul(bb, x0), repr(out)[:300]))
         return obs
     yield "Fq2::square_root", guarded(run)
+
+
+def _k(p):
+    return frozenset(p.t.items()) if isinstance(p, Poly) else p
 
 
 _xu1 = units
